@@ -100,8 +100,12 @@ class IBAN(common.Base):
         .. versionadded:: 2024.01.2
         """
         checksum_algo = ISO7064_mod97_10()
+        try:
+            checksum_digits = checksum_algo.compute([bban, country_code])
+        except ValueError as e:
+            raise exceptions.InvalidStructure(f"Invalid characters in BBAN {bban!s}") from e
         return cls(
-            country_code + checksum_algo.compute([bban, country_code]) + bban,
+            country_code + checksum_digits + bban,
             allow_invalid=allow_invalid,
             validate_bban=validate_bban,
         )
